@@ -217,7 +217,8 @@ def build(tier, repo):
     cpy_f = re.search(r"memcpy\(self->buffer,\w+\.buf,([^;]*?)\);", ff)
 
     def canon(t):
-        return t.replace("MAT_ID(self)", "self->id") if t else t
+        # width casts of the count (Py_ssize_t / size_t) do not change which count is used
+        return re.sub(r"\((?:Py_ssize_t|size_t|int_t|long)\)", "", t.replace("MAT_ID(self)", "self->id")) if t else t
     vals = [canon(cnt_t.group(1)) if cnt_t else None, canon(rd_.group(2)) if rd_ else None, canon(cpy_f.group(1)) if cpy_f else None]
     if all(v is not None for v in vals) and len(set(vals)) == 1 and "E_SIZE[self->id]*MAT_LGT(self)" in vals[0]:
         r3.ok("dense:byte count agreement", "src/C/dense.c:matrix_tofile/fromfile", vals[0])
@@ -281,6 +282,11 @@ def build(tier, repo):
         else:
             r5.violation(key, "src/C/dense.c:%s" % fn, "%s can return the operand itself instead of a copy" % what, "Matrix_New*", "returns operand")
     r5.require(3)
+    from .. import cmisc_rules as mr5
+    r6 = chk.rule("C20-R6", "every exit after a successful PyObject_GetBuffer releases the view",
+                  "an imported buffer stays usable by its owner: the exporter is never left locked")
+    chk.note_analysed("exits_after_getbuffer", mr5.buffer_pairing_rule(r6, cs, ["dense.c", "sparse.c", "base.c"]))
+    r6.require(3)
     return chk
 
 
